@@ -22,6 +22,7 @@ fn table() -> Vec<(&'static str, RunFn, ReplayFn)> {
         ("C10", props::c10::run as RunFn, props::c10::replay as ReplayFn),
         ("C11", props::c11::run as RunFn, props::c11::replay as ReplayFn),
         ("C12", props::c12::run as RunFn, props::c12::replay as ReplayFn),
+        ("C13", props::c13::run as RunFn, props::c13::replay as ReplayFn),
         ("C14", props::c14::run as RunFn, props::c14::replay as ReplayFn),
         ("C15", props::c15::run as RunFn, props::c15::replay as ReplayFn),
         ("C16", props::c16::run as RunFn, props::c16::replay as ReplayFn),
